@@ -44,6 +44,13 @@ def source_for(c):
         if c["extra"] == "mixed_blocks":
             extra_out = (f"cardano::withdrawal {{ from: Other, amount: w1, redeemer: (), }}\n  "
                          "cardano::treasury_donation { coin: w1, }\n  cardano::plutus_witness { version: 3, script: 0x5101010023259800a518a4d136564004ae69, }")
+    elif c["extra"] == "burn_only_param":
+        # a parameter that only a burn block mentions (its redeemer), next to the blocks that mention the others
+        params.append("tag: Int")
+        extra_out = "burn { amount: AnyAsset(0x" + "cd" * 28 + ", \"t\", 1), redeemer: tag, }"
+    elif c["extra"] == "signer_only_param":
+        params.append("cosigner: Bytes")
+        extra_out = "signers { cosigner, }"
     elif c["extra"] == "long_script":
         # an inline script of realistic size (longer than the 4 KiB scratch buffers of common CBOR readers)
         extra_out = "cardano::plutus_witness { version: 3, script: 0x" + "5a" * 5003 + ", }"
